@@ -22,6 +22,7 @@ def split_gap(rng, d, k):
 class C07(PropBase):
     id = 'C07'
     partial_passes = 0.25
+    rx_only_passes = 0.4
     lean_modules = ['Isotp.Props.C07']
     theorems = []
     rule = ('timeouts 1 ms..10 s; RX: a well-formed message of 2..20 frames with one inter-frame gap T +/- delta (delta 1 us..T/2, never on the '
@@ -172,9 +173,23 @@ class C07(PropBase):
             if ending == 'gap' and k == g:
                 parts = split_gap(rng, d, idle)
                 acc = 0
-                for p in parts[:-1]:
+                # frames that are read but IGNORED inside the gap do not belong to the message: they must not move its deadline
+                inj = rng.randrange(len(parts) - 1) if len(parts) > 1 and rng.random() < 0.4 else None
+                for j, p in enumerate(parts[:-1]):
                     ops.append({'op': 'tick', 'dt': p})
                     acc += p
+                    if j == inj:
+                        kinds = ['fc', 'foreign']
+                        if txdl > 8 and k < len(frames) - 1:
+                            kinds += ['rxdl', 'rxdl']
+                        ignored = rng.choice(kinds)
+                        if ignored == 'fc':
+                            ops.append({'op': 'frame', 'i': 0, 'id': fid, 'ext': ext, 'data': pre + bytes([0x30, 0, 0])})
+                        elif ignored == 'foreign':
+                            ops.append({'op': 'frame', 'i': 0, 'id': fid ^ 1, 'ext': ext, 'data': fr})
+                        else:
+                            # the expected sequence number in a frame of another size than the First Frame's (not the last frame): refused, ignored
+                            ops.append({'op': 'frame', 'i': 0, 'id': fid, 'ext': ext, 'data': (pre + bytes([0x20 | (k % 16)]) + bytes(7))[:8]})
                     ops.append({'op': 'process', 'i': 0})
                     if acc > T and expect_at is None:
                         expect_at = len(ops) - 1
